@@ -3,7 +3,8 @@
 // Per instance (capacities, demands, integer or float costs, optional increaseCapacity) the
 // harness runs  constructor; [increaseCapacity]; solve; toAssignment; [setAllocations; toAssignment]
 // on the real class and prints the integer results; the Lean driver replays the same op lines on the
-// model and additionally has to answer `cert ok` (verified optimality certificate accepted).
+// model and additionally has to answer `cert ok` (verified optimality certificate accepted) and
+// `bound ok` (3*|cost| < INT_MAX, the hypothesis of the universal Lean theorems ssp_optimal/ssp_terminates).
 // Direct oracle (independent code, on the real output): every source fully allocated, no sink over
 // capacity, no negative entry, total cost (exact integers, in the stored fixed-point costs) equal to
 // a brute-force optimum when the instance is tiny (<= 5 sources x <= 4 sinks, demands <= 4); for
@@ -214,6 +215,9 @@ struct Runner {
     out.impl << "status ok\n";
     out.impl << "alloc " << matStr(pb.allocations()) << "\n";
     out.impl << "cert ok\n";
+    // hypothesis of the universal theorems (3*|cost| < INT_MAX) holds on every generated instance,
+    // integer costs by construction of the generator, float costs by costsFromIntegers' scaling
+    out.impl << "bound ok\n";
     std::vector<int> asg = pb.toAssignment();
     out.ops << "assign\n";
     out.impl << "assign " << vh::join(asg) << "\n";
